@@ -244,6 +244,53 @@ let handle (line : Stdlib.String.t) : Stdlib.String.t =
               "OK C[" ^ String.concat "," (List.map (fun q -> so q.q_table ^ ":" ^ so q.q_column ^ ":" ^
                                               (match q.q_idx with None -> "-" | Some z -> z_to_string z)) l) ^ "]")
        with Failure m -> "BAD-REQUEST " ^ m)
+  | "LINEAGE" :: rest ->
+      (* LINEAGE name=sql,name=sql,... | query     (names, sql and query as code points; entries separated by ',') *)
+      (try
+         let rec split acc = function "|" :: r -> (List.rev acc, r) | x :: r -> split (x :: acc) r | [] -> (List.rev acc, []) in
+         let (cw, qw) = split [] rest in
+         let cat = List.concat_map (fun w -> if w = "-" then [] else List.map (fun e ->
+                     match Stdlib.String.split_on_char '=' e with [n; s] -> (str_of_word n, str_of_word s) | _ -> failwith "bad catalogue")
+                     (Stdlib.String.split_on_char ',' w)) cw in
+         let so = function None -> "-" | Some s -> if s = [] then "e" else cps s in
+         let show_src (x : src0) = so x.s_schema ^ ":" ^ so (Some x.s_table) ^ ":" ^ so x.s_column in
+         let show_srcs l = "[" ^ String.concat "," (List.sort_uniq compare (List.map show_src l)) ^ "]" in
+         (match lineage_text cat (ints_of qw) with
+          | Err e -> "PARSEERR " ^ err_name e
+          | Ok (Err e, _) -> "ERR " ^ err_name e
+          | Ok (Ok (LSelect l), asked) ->
+              "OK S " ^ String.concat " " (List.map (fun (c, ss) -> z_to_string c.sc_idx ^ ":" ^ so (Some c.sc_name) ^ "=" ^ show_srcs ss) l)
+              ^ " ; ASKED " ^ String.concat "," (List.map (fun k -> so (Some k)) asked)
+          | Ok (Ok (LInsert l), asked) ->
+              "OK I " ^ String.concat " " (List.map (fun (t, ss) -> show_src t ^ "=" ^ show_srcs ss) l)
+              ^ " ; ASKED " ^ String.concat "," (List.map (fun k -> so (Some k)) asked))
+       with Failure m -> "BAD-REQUEST " ^ m)
+  | "CACHE" :: rest ->
+      (* CACHE known=name,name,... | op op ...   ops: new:1 new:0 get:<i>:<name> crash:<i>:<name>:<k>
+         provider(name) = "CREATE TABLE zz (n<name code points joined by _> INT)" for known names, raises otherwise *)
+      (try
+         let rec split acc = function "|" :: r -> (List.rev acc, r) | x :: r -> split (x :: acc) r | [] -> (List.rev acc, []) in
+         let (kw, ops) = split [] rest in
+         let known = List.concat_map (fun w -> if w = "-" then [] else List.map str_of_word (Stdlib.String.split_on_char ',' w)) kw in
+         let tag (n : n list) = "n" ^ String.concat "_" (List.map (fun c -> string_of_int (int_of_n c)) n) in
+         let str_of_ocaml (s : Stdlib.String.t) = List.init (Stdlib.String.length s) (fun i -> n_of_int (Char.code s.[i])) in
+         let provider (n : n list) = if List.mem n known then Some (str_of_ocaml ("CREATE TABLE zz (" ^ tag n ^ " INT)")) else None in
+         let op_of w = match Stdlib.String.split_on_char ':' w with
+           | ["new"; d] -> CNew (d = "1") | ["get"; i; n] -> CGet (nat_of_int (int_of_string i), str_of_word n)
+           | ["crash"; i; n; k] -> CCrashSave (nat_of_int (int_of_string i), str_of_word n, nat_of_int (int_of_string k))
+           | _ -> failwith ("bad cache op " ^ w) in
+         let (w, rs) = crun provider empty_world (List.map op_of ops) in
+         let ocaml_of_str l = Stdlib.String.concat "" (List.map (fun c -> Stdlib.String.make 1 (Char.chr (int_of_n c land 255))) l) in
+         let show = function
+           | RNone -> "-"
+           | RErr e -> "E:" ^ err_name e
+           | RSql s -> let t = ocaml_of_str s in
+               (try let a = Stdlib.String.index t '(' in let b = Stdlib.String.rindex t ' ' in "S:" ^ Stdlib.String.sub t (a + 1) (b - a - 1)
+                with Not_found | Invalid_argument _ -> "S:?" ^ t) in
+         String.concat " " (List.map show rs) ^ " ; ASKED " ^ String.concat "," (List.map (fun k -> if k = [] then "e" else cps k) w.w_asked)
+         ^ " ; FILES " ^ String.concat "," (List.sort compare (List.map (fun (f, _) -> cps f) w.w_fs))
+       with Failure m -> "BAD-REQUEST " ^ m)
+  | "NICE" :: rest -> if nice (ints_of rest) then "1" else "0"
   | "CURSOR" :: rest ->
       (try
          let (toks, rest1) = parse_toks rest in
